@@ -126,6 +126,23 @@ def run(tier, seed):
             note(msg, qsrc, "c13_quantity")
         if len(samples) < 4:
             samples.append("%s -> %r" % (src, str(eval(src, ns))))
+    # a symbol first met as prefix+unit and registered as a unit of its own afterwards (import order / later definitions)
+    tag = "zq%d" % (seed % 1000)
+    hist = ("import measured\nfrom measured.si import Kilo\nbase = measured.Unit._by_symbol.get('%(t)s') or measured.Unit.define(measured.Length, '%(t)s-name', '%(t)s')\n"
+            "first = measured.Unit.parse('k%(t)s')\nown = measured.Unit._by_symbol.get('k%(t)s') if isinstance(measured.Unit._by_symbol.get('k%(t)s'), measured.Unit) and "
+            "measured.Unit._by_symbol.get('k%(t)s').name == 'k%(t)s-name' else measured.Unit.define(measured.Mass, 'k%(t)s-name', 'k%(t)s')\n"
+            "ok = first is Kilo * base and measured.Unit.parse(str(own)) is own and measured.Quantity.parse('3 k%(t)s').unit is own\n") % {"t": tag}
+    env = dict(ns)
+    evals += 1
+    try:
+        exec(hist, env)
+        okh = env["ok"]
+    except Exception as e:
+        okh = False
+        hist += "# raised %s: %s\n" % (type(e).__name__, e)
+    if not okh:
+        failures.append({"key": "history:symbol-registered-after-first-parse", "desc": "a symbol parsed as prefix+unit before a unit with that very symbol was defined keeps its old meaning",
+                         "src": hist, "fn": "history"})
     # spellings
     for _ in range(60 if tier == "quick" else 3000):
         a, b = ns[rng.choice(units)], ns[rng.choice(units)]
@@ -146,6 +163,8 @@ def run(tier, seed):
 
 
 def replay_body(f):
+    if f["fn"] == "history":
+        return f["src"] + "print('ok =', ok)\nsys.exit(0 if ok else 1)\n"
     arg = f["src"] if f["fn"] != "c13_spellings" else None
     if arg is None:
         return CHECK + "msg = c13_spellings(%s, ns)\nprint(msg)\nsys.exit(1 if msg else 0)\n" % f["src"]
